@@ -121,6 +121,11 @@ def main(payload):
                     M1 = np.sqrt(u1.dot(u1)) / np.sqrt(gg * p1 / r1)
                     turn = abs(np.arctan2(u1[1], u1[0]) - th0)
                     res[side + '_fan_turning_vs_prandtl_meyer'] = float(abs(turn - (nu(M1, gg) - nu(M0, gg))))
+                    # the same relation with the library's OWN Prandtl-Meyer function evaluated for this stream's gamma (the coded function has a
+                    # recorded defect; whatever it is, a fan must turn its stream by the difference of that function between M0 and M*)
+                    from exactpack.solvers.riemann2D_2section_steadystate.riemann2D_2section_steadystate import SetupRiemannProblem
+                    pmf = SetupRiemannProblem(list(c['bottom']), list(c['top'])).PrandtlMeyer_function
+                    res[side + '_fan_turning_vs_coded_nu'] = float(abs(turn - abs(float(pmf(M1, gg)) - float(pmf(M0, gg)))))
             out.append(res)
         except Exception as ex:
             out.append({'error': type(ex).__name__ + ': ' + str(ex)[:200]})
@@ -128,7 +133,7 @@ def main(payload):
 '''
 THRESH = {'speed': 1e-12, 'mach': 1e-8, 'eos': 1e-12, 'slip_pressure': 1e-8, 'slip_direction': 1e-6, 'slip_is_streamline': 1e-6,
           'total_enthalpy': 1e-6, 'shock_mass': 1e-5, 'shock_momentum': 1e-5, 'shock_tangential': 1e-5, 'shock_compressive': 0.0,
-          'fan_isentropic': 1e-8, 'fan_turning_vs_prandtl_meyer': 1e-5}
+          'fan_isentropic': 1e-8, 'fan_turning_vs_prandtl_meyer': 1e-5, 'fan_turning_vs_coded_nu': 1e-6}
 
 
 def sample(rng, n):
